@@ -316,8 +316,18 @@ CLAIMED = {
              "rejection lemma per listed fault ($INCLUDE, class other than IN with explicit owner, second SOA, wildcard SOA, owner "
              "outside the apex, relative name / @ / * without origin, no TTL to inherit), no partial load (a zone is built only "
              "after every entry was accepted) and soa_raises_ttls (every record of the returned zone has TTL >= SOA MINIMUM). "
-             "NOT proved in Coq: the whole-file statement parse(render f) = denote f (composition over the list of entries); it "
-             "is checked by the correspondence stream, whose oracle is an independent python denotation of the abstract file.",
+             "parse_denotes (PROVED, coq/ZoneFile/ZoneParseDenotes.v): for every file of an abstract syntax (entries = $ORIGIN | "
+             "RR with owner absent / name / '*' / '*.name', names absolute, relative or '@', optional TTL and class in either "
+             "order, all 18 types; blank and comment-only lines) laid out in ANY layout of the layout family (white space, \\X "
+             "and \\DDD escapes, quoted tokens, parenthesised groups over several lines, comments, last line with or without "
+             "newline) that passes a decidable validity check (names expressible, numbers in range, owner not all digits), "
+             "Zone::deserialise(render f) returns the zone the file denotes: apex and SOA as found, and a record tree that "
+             "represents (relation R of the C02 development) exactly the denoted records -- origin tracking, owner/TTL/"
+             "wildcard-ness inherited from the previous record (TTL as loaded, D3), an owner expanding to '*.x' a wildcard "
+             "(fix 0286676), TTLs raised to the SOA minimum; with the codec of Ip/IpModel.v no hypothesis is left "
+             "(C11_parse_denotes_zf). The theorem fixes the SPELLING (lower-case names, numbers/addresses as Display prints "
+             "them, no TYPE<n>); other spellings are covered by the correspondence stream, whose oracle is an independent "
+             "python denotation of the abstract file.",
         note="Conventions D3 (SOA RR loaded with TTL = MINIMUM, inherited as loaded) and D4 (a non-IN class mnemonic where an owner "
              "may stand is an owner). Interpretations D9/D10: an unterminated quoted string / an open parenthesis at end of input "
              "is accepted by the tokeniser (malformed text outside the property's fault list; generated, model = impl checked). "
